@@ -574,6 +574,7 @@ struct Region
     std::string name;
     int kind; // 0: x<0 (-0 excluded)  1: x<-1  2: |x|>1  3: x<1 (every negative incl. -0, and [+0,1))  4: pow(x<0 finite, y finite non-integer)
               // 5: x = NaN of any payload / sign / quiet bit (binary: y ordinary)   6: y = NaN, x ordinary
+              // 7: x a negative integer (every binade up to -MAX; all floats beyond 2^P are integers), expected NaN (tgamma) or +inf (lgamma)
 };
 static std::vector<Region> make_regions()
 {
@@ -582,6 +583,8 @@ static std::vector<Region> make_regions()
         { FN_LOG1P, "domain_log1p_below_minus_one", 1 }, { FN_ASIN, "domain_asin_outside", 2 }, { FN_ACOS, "domain_acos_outside", 2 }, { FN_ATANH, "domain_atanh_outside", 2 },
         { FN_ACOSH, "domain_acosh_below_one", 3 }, { FN_POW, "domain_pow_negative_base", 4 },
     };
+    v.push_back({ FN_TGAMMA, "pole_tgamma_negative_integer", 7 });
+    v.push_back({ FN_LGAMMA, "pole_lgamma_negative_integer", 7 });
     for (int fn = FN_SQRT; fn <= FN_POW; ++fn)
     {
         v.push_back({ fn, std::string("nan_argument_") + MATHFN[fn].name, 5 });
@@ -630,6 +633,12 @@ static void plan_domains()
                 else
                     x[i] = frombits<T>(edge ? ((i & 64) ? k : ONE - 1 - k) : mag(0, ONE - 1));
                 break;
+            case 7:
+            {
+                T m = frombits<T>(edge ? ((i & 64) ? bitsof((T)(1 + k)) : INFB - 1 - k) : mag(ONE, INFB - 1));
+                x[i] = -std::floor(m);
+                break;
+            }
             case 5:
             case 6:
             {
@@ -672,9 +681,10 @@ static void plan_domains()
                     (void)std::frexp((double)x[i], &e);
                     st.cell(R.kind >= 5 ? (unsigned)(bitsof(R.kind == 5 ? x[i] : y[i]) >> (sizeof(T) * 8 - 12)) | (unsigned)(i & 0xf0) << 8 : (unsigned)((x[i] < 0) << 12 | ((e + 2048) & 0xfff)));
                 }
-                if (o0[i] == o0[i] || (two_out && o1[i] == o1[i]))
+                const bool bad = (R.kind == 7 && R.fn == FN_LGAMMA) ? !(std::isinf(o0[i]) && o0[i] > 0) : (o0[i] == o0[i] || (two_out && o1[i] == o1[i]));
+                if (bad)
                     viol(st, classify_domain<T>(R.fn, x[i]), [&]
-                         { return "{\"x\":\"" + hexT(x[i]) + "\"" + fmt(",\"x_value\":%.17g,\"y_value\":%.17g,\"expected\":\"nan\"", (double)x[i], (double)y[i]) + ",\"got\":\"" + hexT(o0[i]) + "\"" + fmt(",\"got_value\":%.17g,\"index_in_block\":%zu}", (double)o0[i], i); });
+                         { return "{\"x\":\"" + hexT(x[i]) + "\"" + fmt(",\"x_value\":%.17g,\"y_value\":%.17g,\"expected\":\"%s\"", (double)x[i], (double)y[i], (R.kind == 7 && R.fn == FN_LGAMMA) ? "+inf" : "nan") + ",\"got\":\"" + hexT(o0[i]) + "\"" + fmt(",\"got_value\":%.17g,\"index_in_block\":%zu}", (double)o0[i], i); });
                 else if (st.samples.size() < 2 && i == 100)
                     st.samples.push_back("{\"x\":\"" + hexT(x[i]) + "\"" + fmt(",\"x_value\":%.9g,\"y_value\":%.9g", (double)x[i], (double)y[i]) + ",\"got\":\"" + hexT(o0[i]) + "\"}");
             }
